@@ -84,7 +84,7 @@ class HelicityAngle:
     def generate_p_mass(self, name, m, random=False):
         """generate monmentum with M_name = m"""
         m = tf.convert_to_tensor(m, tf.float64)
-        ms = self.get_all_mass({name: m})
+        ms = self.get_all_mass({str(name): m})
         data = {}
 
         for i in self.decay_chain:
@@ -124,7 +124,7 @@ class HelicityAngle:
 
     def get_phsp_factor(self, name, m):
         m = tf.convert_to_tensor(m, tf.float64)
-        ms = self.get_all_mass({name: m})
+        ms = self.get_all_mass({str(name): m})
         return self.eval_phsp_factor(ms)
 
     def eval_phsp_factor(self, ms):
